@@ -500,5 +500,58 @@ class LongLines(Part):
         return res
 
 
+class Quotings(Part):
+    name = "same_secret_under_every_nesting_of_quotes"
+    desc = "one secret (clear text and $9$) bare and inside every nesting of up to two layers of quotes / escaped quotes / brackets, in one run: one replacement; the layers stay around it"
+
+    LAYERS = [('"', '"'), ("'", "'"), ('\\"', '\\"'), ("\\'", "\\'"), ("[", "]"), ("{", "}"), ("", ";"), ("", ",")]
+
+    def __init__(self, tier, seed):
+        self.tier, self.seed = tier, seed
+
+    def cases(self):
+        return [{"cls": c, "form": f} for c in ("text", "juniper9") for f in range(2)]
+
+    def run(self, case):
+        from netconan.anonymize_files import FileAnonymizer
+
+        res = Res()
+        S = "S3cretWord" if case["cls"] == "text" else refs.j9_encode("hunter2", "Q")
+        tmpl = ("password %s", "set system x secret %s")[case["form"]]
+        wraps = [("", "")] + list(self.LAYERS) + [(o[0] + i[0], i[1] + o[1]) for o in self.LAYERS for i in self.LAYERS]
+        wraps = list(dict.fromkeys(wraps))
+        lines = [tmpl % (h + S + t) for h, t in wraps]
+        if "lines" in case:
+            keep = [k for k, ln in enumerate(lines) if ln in case["lines"]]
+            wraps, lines = [wraps[k] for k in keep], [lines[k] for k in keep]
+            wraps, lines = [("", "")] + wraps, [tmpl % S] + lines
+        with seams.capture_logs():
+            fa = FileAnonymizer(anon_pwd=True, anon_ip=False, salt="saltForTest")
+            out = io.StringIO()
+            fa.anonymize_io(io.StringIO("".join(l + "\n" for l in lines)), out)
+        got = out.getvalue().split("\n")[:-1]
+        res.states = 1
+        res.transitions = len(lines)
+        base = None
+        pre = tmpl.split("%s")[0]
+        for (h, t), ln, g in zip(wraps, lines, got):
+            res.evals += 1
+            res.nt((case["cls"], case["form"], h, t))
+            body = g[len(pre):] if g.startswith(pre) else None
+            if body is None or not (body.startswith(h) and body.endswith(t) and len(body) >= len(h) + len(t)):
+                res.violation("layers-around-the-secret-changed", "%r -> %r" % (ln, g), dict(case, lines=[ln]))
+                continue
+            rep = canon_repl(body[len(h): len(body) - len(t)] if t else body[len(h):])
+            if base is None:
+                base = rep
+            res.out(rep == base)
+            if rep != base:
+                res.violation("equal-secrets-different-replacements|quoting",
+                              "secret %r bare -> %r, written %r -> %r" % (S, base, h + S + t, rep), dict(case, lines=[ln]))
+        if "lines" not in case:
+            res.samples.append({"case": case, "quotings": len(wraps)})
+        return res
+
+
 def parts(tier, seed):
-    return [HistoryPart(tier, seed), SaltChars(tier, seed), LongHistory(tier, seed), NearPlaintexts(tier, seed), LongLines(tier, seed)]
+    return [HistoryPart(tier, seed), SaltChars(tier, seed), LongHistory(tier, seed), NearPlaintexts(tier, seed), LongLines(tier, seed), Quotings(tier, seed)]
